@@ -167,6 +167,9 @@ def gen_cases(ctx):
 
 def run(ctx):
     cw.standard_check(ctx, cw.corpus_cases(PROP) + gen_cases(ctx), PROP, KINDS, "runner.counts", make_monitor(ctx), extra=totals_vs_model)
+    # the numbers of a layer run in a subprocess are the ones its report carries, however late its stderr closes
+    from harness import corr_channel
+    corr_channel.slow_eof_cases(ctx)
 
 
 def _tiny_world(kind):
